@@ -135,7 +135,7 @@ func normaliseDoc(v interface{}) interface{} {
 // ---- structural mutation of a JSON tree
 
 var palette = []interface{}{nil, true, false, 0.0, -1.0, 1.0, 2.0, 0.5, 256.9, 1e30, -1e30, "", "0", "x", "1.5", "topLeft", "bottomLeft", []interface{}{}, map[string]interface{}{}, []interface{}{1.0, 2.0}, "http://www.opengis.net/def/crs/EPSG/0/3857", "urn:ogc:def:crs:EPSG::28992",
-	[]interface{}{1.0, 2.0, 3.0}, []interface{}{1.0}, map[string]interface{}{"uri": "urn:ogc:def:crs:EPSG::28992", "description": "d"},
+	[]interface{}{1.0, 2.0, 3.0}, []interface{}{1.0}, "07", "+3", "-0", -285401.9200000001, 1e-10, 123456.123456789012, []interface{}{1e-10, 0.30000000000000004}, map[string]interface{}{"uri": "urn:ogc:def:crs:EPSG::28992", "description": "d"},
 	map[string]interface{}{"wkt": map[string]interface{}{"id": map[string]interface{}{"authority": "EPSG", "code": "3857"}}},
 	map[string]interface{}{"referenceSystem": map[string]interface{}{"name": "x"}}, map[string]interface{}{"wkt": map[string]interface{}{}}}
 
@@ -276,7 +276,7 @@ func mustReject(v interface{}) string {
 func checkC16(e *env) {
 	r := e.res
 	r.Rule = "all 14 built-in documents and the test document, decode -> encode -> decode -> encode (equal value, stable encoding, re-encoded document semantically equal to the original: same tree after making the cornerOfOrigin default explicit, " +
-		"numbers compared as float64); documents obtained from them by 1..3 structural mutations (delete a key, drop an array element, replace a value by one of 28 palette values of every JSON kind) at paths biased to crs, tileMatrices and the tile matrix fields: " +
+		"numbers compared as float64); documents obtained from them by 1..3 structural mutations (delete a key, drop an array element, replace a value by one of 35 palette values of every JSON kind) at paths biased to crs, tileMatrices and the tile matrix fields: " +
 		"no panic; accepted documents must survive the round trip; documents with missing crs/tileMatrices, wrong kinds, non-positive or non-numeric sizes, non-integer ids must be rejected; every document also goes through the model (op tmsdoc). " +
 		"Non-trivial = a mutated document; distinct by document text."
 	files, _ := filepath.Glob(filepath.Join(repoDir(), "tms20", "tilematrixsets", "*.json"))
@@ -333,6 +333,10 @@ func checkC16(e *env) {
 			enc2, _ := encodeDoc(d2.tms)
 			if k1, k2 := fmt.Sprintf("%T", d1.tms.CRS), fmt.Sprintf("%T", d2.tms.CRS); k1 != k2 {
 				r.violation(Violation{Oracle: "decode-encode-decode-yields-an-equal-value", Op: short + " | " + clip(string(b), 1500), Impl: clip(string(enc1), 600), Detail: "the CRS is a " + k1 + " after decoding and a " + k2 + " after the round trip"})
+				return
+			}
+			if bad := sameValue(d1.tms, d2.tms); bad != "" {
+				r.violation(Violation{Oracle: "decode-encode-decode-yields-an-equal-value", Op: short + " | " + clip(string(b), 1500), Impl: clip(string(enc1), 600), Detail: bad})
 				return
 			}
 			if string(enc1) != string(enc2) {
@@ -401,6 +405,48 @@ func checkC16(e *env) {
 		one(names[di]+" with "+strings.Join(desc, "; "), tree, true)
 	}
 	e.flushJSON()
+}
+
+// sameValue: field by field equality of two decoded tile matrix sets (empty and nil slices are the same value)
+func sameValue(a, b *tms20.TileMatrixSet) string {
+	if a.ID != b.ID || a.Title != b.Title || a.Description != b.Description || a.URI != b.URI || a.WellKnownScaleSet != b.WellKnownScaleSet {
+		return "a top-level string differs after the round trip"
+	}
+	if fmt.Sprint(a.Keywords) != fmt.Sprint(b.Keywords) || fmt.Sprint(a.OrderedAxes) != fmt.Sprint(b.OrderedAxes) || (a.OrderedAxes == nil) != (b.OrderedAxes == nil) {
+		return "keywords or orderedAxes differ after the round trip"
+	}
+	if (a.BoundingBox == nil) != (b.BoundingBox == nil) {
+		return "boundingBox present/absent differs"
+	}
+	if a.BoundingBox != nil {
+		if *a.BoundingBox.LowerLeft != *b.BoundingBox.LowerLeft || *a.BoundingBox.UpperRight != *b.BoundingBox.UpperRight || fmt.Sprint(a.BoundingBox.OrderedAxes) != fmt.Sprint(b.BoundingBox.OrderedAxes) {
+			return fmt.Sprintf("boundingBox differs: %v %v vs %v %v", *a.BoundingBox.LowerLeft, *a.BoundingBox.UpperRight, *b.BoundingBox.LowerLeft, *b.BoundingBox.UpperRight)
+		}
+	}
+	if len(a.TileMatrices) != len(b.TileMatrices) {
+		return fmt.Sprintf("%d tile matrices before, %d after the round trip", len(a.TileMatrices), len(b.TileMatrices))
+	}
+	for id, x := range a.TileMatrices {
+		y, ok := b.TileMatrices[id]
+		if !ok {
+			return fmt.Sprintf("tile matrix %d lost in the round trip", id)
+		}
+		if x.ID != y.ID {
+			return fmt.Sprintf("tile matrix %d: id %q became %q", id, x.ID, y.ID)
+		}
+		if x.Title != y.Title || x.Description != y.Description || fmt.Sprint(x.Keywords) != fmt.Sprint(y.Keywords) || x.ScaleDenominator != y.ScaleDenominator || x.CellSize != y.CellSize ||
+			x.TileWidth != y.TileWidth || x.TileHeight != y.TileHeight || x.MatrixWidth != y.MatrixWidth || x.MatrixHeight != y.MatrixHeight || fmt.Sprint(x.VariableMatrixWidths) != fmt.Sprint(y.VariableMatrixWidths) {
+			return fmt.Sprintf("tile matrix %d: a field differs after the round trip (%+v vs %+v)", id, x, y)
+		}
+		if *x.PointOfOrigin != *y.PointOfOrigin {
+			return fmt.Sprintf("tile matrix %d: pointOfOrigin %v became %v", id, *x.PointOfOrigin, *y.PointOfOrigin)
+		}
+		xc, yc := x.CornerOfOrigin, y.CornerOfOrigin
+		if xc != yc {
+			return fmt.Sprintf("tile matrix %d: cornerOfOrigin %q became %q", id, xc, yc)
+		}
+	}
+	return ""
 }
 
 func clip(s string, n int) string {
